@@ -85,6 +85,13 @@ a
 """,
     # 3: empty ordering
     "",
+    # 4: only %global entries: they must reach the children of blocks no rule mentions
+    """
+d * %global
+g * %global
+c %global
+x *
+""",
 ]
 
 SLOTS_Q = [S(["a"]), S(["x k1"]), S(["y k1"]), S(["m"]), S(["u k1 v1", "u k1 v2"]),
@@ -427,6 +434,17 @@ def check_order_config(orderer, tree, mentioned):
     o2 = orderer.order_config(copy.deepcopy(o1))
     if _seq(o2) != _seq(o1):
         return False, {"once": tree_to_json(o1), "twice": tree_to_json(o2)}, "order_config-not-idempotent", True
+    # the ordering of a block does not depend on its siblings
+    for row, sub in t0.items():
+        if sub:
+            alone = orderer.order_config(odict([(row, copy.deepcopy(sub))]))
+            if _seq(alone[row]) != _seq(o1[row]):
+                return False, {"row": row, "with_siblings": tree_to_json(o1[row]), "alone": tree_to_json(alone[row])}, \
+                    "block-order-depends-on-siblings", True
+    if mentioned is not None:
+        bad = _rank_sorted(o1, mentioned)
+        if bad:
+            return False, {"tree": tree_to_json(t0), "ordered": tree_to_json(o1), "violation": bad}, "order_config-ignores-rule-rank", True
     bad = _unmentioned_stable(orderer, t0, o1)
     if bad:
         from annet.vendors import registry_connector
@@ -437,6 +455,21 @@ def check_order_config(orderer, tree, mentioned):
         kind = "unmentioned-negated-rows-float-first" if (neg(un) == neg(seq) and pos(un) == pos(seq)) else "unmentioned-rows-reordered"
         return False, {"input_order": un, "output_order": seq}, kind, True
     return True, None, None, _seq(o1) != _seq(t0)
+
+
+def _rank_sorted(o, level):
+    """RefOrder on a generated configuration: sibling rows appear by non-decreasing reference rank"""
+    prev = None
+    for row in o:
+        rk, child = ref_rank(level, row)
+        if prev is not None and rk < prev[0]:
+            return [prev[1], prev[0], row, rk]
+        prev = (rk, row)
+        if o[row]:
+            bad = _rank_sorted(o[row], child)
+            if bad:
+                return bad
+    return None
 
 
 def _unmentioned_stable(orderer, t, o):
@@ -480,7 +513,7 @@ def h_order_config(case: int) -> bool:
             oi, ti = k % len(ORDERS), k // len(ORDERS)
             cx = ctx(oi)
             orderer = Orderer(cx["rb"]["ordering"], cx["hw"].vendor)
-            ok, detail, kind, nt = check_order_config(orderer, unrank(SLOTS, ti), None)
+            ok, detail, kind, nt = check_order_config(orderer, unrank(SLOTS, ti), cx["order"])
             cs = {"order": oi, "tree_idx": ti, "tier": rt.TIER}
             fp = "C08:order_config:synthetic:%s" % kind
         rt.record(cs, ok, cs if nt else None, detail=detail, fingerprint=fp)
@@ -538,6 +571,6 @@ def replay(obligation, case):
             return {"ok": ok, "detail": detail, "fingerprint": "C08:order_config:%s" % kind if kind == "unmentioned-negated-rows-float-first" else "C08:order_config:%s:%s" % (v, kind)}
         slots = SLOTS_Q if case.get("tier", "quick") == "quick" else SLOTS_T
         cx = ctx(case["order"])
-        ok, detail, kind, _ = check_order_config(Orderer(cx["rb"]["ordering"], cx["hw"].vendor), unrank(slots, case["tree_idx"]), None)
+        ok, detail, kind, _ = check_order_config(Orderer(cx["rb"]["ordering"], cx["hw"].vendor), unrank(slots, case["tree_idx"]), cx["order"])
         return {"ok": ok, "detail": detail, "fingerprint": "C08:order_config:synthetic:%s" % kind}
     return {"ok": True, "detail": None, "fingerprint": None}
